@@ -37,6 +37,15 @@ Theorem C01_no_resume_before_save : forall s, Reach s ->
 Proof. exact no_resume_before_save. Qed.
 Print Assumptions C01_no_resume_before_save.
 
+(** no lost wake-up (safety form): a joiner suspended in join(t) is never forgotten - it is the registered
+    waiter of a target that has not yet run finish.readjoin, or its registering callback still holds t's lock *)
+Theorem C01_no_lost_wakeup : forall s j t, Reach s -> main (gt s j) = JSusp t ->
+  before_readjoin (gt s t) = true /\ j <> t /\
+  (cb (gt s j) = CbNone -> join_thread (gt s t) = Some j) /\
+  (cb (gt s j) <> CbNone -> cb (gt s j) = CbJoinSet t /\ lockh (gt s t) = Some j).
+Proof. exact no_lost_wakeup. Qed.
+Print Assumptions C01_no_lost_wakeup.
+
 Theorem C01_readjoin_wakes_suspended : forall s j w, Reach s ->
   main (gt s j) = FReadJoin -> join_thread (gt s j) = Some w ->
   suspended_on (gt s w) j = true /\ wake s w = modify s w (fun y => set_main (set_status y ST_READY) (JSpin j)).
